@@ -198,6 +198,7 @@ func c13Exec(c Case) (outs []string, fails []Failure, tags []string) {
 	stk := &c13Staking{bonded: new(big.Int)}
 	k := coinomicskeeper.NewKeeper(app.GetKey(coinomicstypes.StoreKey), app.AppCodec(), app.GetSubspace(coinomicstypes.ModuleName), app.AccountKeeper, bank, app.DistrKeeper, stk, authtypes.FeeCollectorName)
 	var lastEnabledBlockTime int64 // timestamp of the last block processed while enabled (0 = none since activation)
+	cfgCoef := sdk.ZeroDec()       // the reward coefficient as configured (by the case's own parameter write), not as read back
 	for i, line := range c {
 		f := strings.Fields(line)
 		out := "bad-op"
@@ -206,6 +207,7 @@ func c13Exec(c Case) (outs []string, fails []Failure, tags []string) {
 			ctx, _ = base.CacheContext()
 			p := coinomicstypes.Params{MintDenom: "aISLM", EnableCoinomics: f[1] == "1", RewardCoefficient: sdk.NewDecFromBigIntWithPrec(mustBig(f[2]), 18)}
 			k.SetParams(ctx, p)
+			cfgCoef = p.RewardCoefficient
 			k.SetPrevBlockTS(ctx, sdkmath.NewIntFromBigInt(mustBig(f[3])))
 			k.SetMaxSupply(ctx, sdk.NewCoin("aISLM", sdkmath.NewIntFromBigInt(mustBig(f[4]))))
 			bank.supply = mustBig(f[5])
@@ -271,7 +273,7 @@ func c13Exec(c Case) (outs []string, fails []Failure, tags []string) {
 				if (yr%4 == 0 && yr%100 != 0) || yr%400 == 0 {
 					ym = 31622400000
 				}
-				rcq := new(big.Int).Mul(pre.RewardCoefficient.BigInt(), new(big.Int).Mul(e18, e18))
+				rcq := new(big.Int).Mul(cfgCoef.BigInt(), new(big.Int).Mul(e18, e18))
 				rcq.Quo(rcq, new(big.Int).Mul(big.NewInt(100), e18))
 				rcq = c13ChopRound(rcq)
 				el := new(big.Int).Mul(big.NewInt(t-lastEnabledBlockTime), e18)
@@ -285,6 +287,9 @@ func c13Exec(c Case) (outs []string, fails []Failure, tags []string) {
 				if want.Cmp(bank.minted) != 0 {
 					fl("C13:formula", fmt.Sprintf("minted %s, formula with elapsed %d ms gives %s", bank.minted, t-lastEnabledBlockTime, want))
 				}
+			}
+			if !post.RewardCoefficient.Equal(cfgCoef) {
+				fl("C13:reward-coefficient-rewritten", fmt.Sprintf("a block changed the stored reward coefficient from the configured %s to %s: later blocks mint by the wrong formula", cfgCoef, post.RewardCoefficient))
 			}
 			if pre.EnableCoinomics && !post.EnableCoinomics {
 				// switched off by the cap: must have minted exactly the remainder
